@@ -113,6 +113,37 @@ def run(res, proof):
             out = None
             objectio.clear_io_objects()
             res.count('slot_assignments')
+    # re-configuration without clear_io_objects() in between: an omitted slot means the library class again
+    for mask1 in [(1, 1, 1, 1, 1), (1, 0, 1, 0, 1), (0, 1, 0, 1, 0)]:
+        for mask2 in [(0, 0, 0, 0, 0), (0, 1, 0, 0, 0), (1, 0, 0, 0, 1)]:
+            for k in kinds:
+                for c in iw.classes[k]:
+                    clear_singletons(c)
+            c1 = {k: (None if not m else subs[k][0]) for k, m in zip(kinds, mask1)}
+            c2 = {k: (None if not m else subs[k][2]) for k, m in zip(kinds, mask2)}
+            objectio.set_io_objects(D=c1['dom'], S=c1['strand'], C=c1['cplx'], M=c1['macro'], R=c1['rxn'])
+            objectio.set_io_objects(D=c2['dom'], S=c2['strand'], C=c2['cplx'], M=c2['macro'], R=c2['rxn'])
+            want = {k: (c2[k] or bases[k]) for k in kinds}
+            res.evaluations += 1
+            res.nontriv(('reconfigure', mask1, mask2))
+            try:
+                out = objectio.read_pil(text)
+                bad = None
+                for key, k in (('domains', 'dom'), ('strands', 'strand'), ('complexes', 'cplx'), ('macrostates', 'macro')):
+                    for n, o in out[key].items():
+                        if type(o) is not want[k]:
+                            bad = '%s %r is a %s, configured %s' % (key, n, type(o).__name__, want[k].__name__)
+                for r in list(out['det_reactions']) + list(out['con_reactions']):
+                    if type(r) is not want['rxn']:
+                        bad = 'reaction %r is a %s' % (r.name, type(r).__name__)
+                if bad:
+                    res.violation('reader-slots:stale-configuration', {'first': mask1, 'second': mask2, 'text': text}, bad,
+                                  'every slot of the second set_io_objects call: the given class, or the library class when omitted')
+                out = None
+            except Exception as e:
+                res.violation('reader-slots:reconfigure-raises:' + type(e).__name__, {'first': mask1, 'second': mask2}, type(e).__name__, 'the result dictionary')
+            objectio.clear_io_objects()
+            res.count('reconfigurations')
     for k in kinds:
         for c in iw.classes[k]:
             clear_singletons(c)
